@@ -399,7 +399,7 @@ pub struct Roles {
     pub xi_ladder: bool,
 }
 
-pub const LADDER_K: [f64; 5] = [6.0, 9.0, 9.5, 9.9, 10.1];
+pub const LADDER_K: [f64; 7] = [6.0, 9.0, 9.5, 9.9, 10.1, 10.3, 10.5];
 
 /// ladder alternatives for the ξ drawn after `step+1` removals in the sector
 fn xi_ladder_alts(case: &Case, order: &[usize], xi_index: usize) -> Vec<f64> {
